@@ -68,6 +68,19 @@ fn workloads_for(thorough: bool) -> Vec<Workload> {
 	};
 	w6.ops.insert(6, Wop::P(Phys::Reopen));
 	v.push(w6.clone());
+	// values larger than any internal write buffer (8 KiB): a short write tears the record itself
+	{
+		let huge = |tag: &str| -> Vec<u8> { format!("{tag:#>8192}").into_bytes() };
+		let mut ops = vec![];
+		for (i, imm) in [false, true, false, false, true, false].iter().enumerate() {
+			ops.push(Wop::W(vec![Write::set(format!("h{i}").as_bytes(), &huge(&format!("h{i}")))], *imm));
+		}
+		v.push(Workload {
+			opt: OptSet::base("L2-memtable64k-8k-values").memtable_size(65536),
+			ops,
+			forced_height: 1,
+		});
+	}
 	// thorough tier only (appended, so that workload indices of the quick tier stay stable):
 	// the overwrite workload on the other storage configurations
 	if thorough {
@@ -372,7 +385,7 @@ pub fn check(tier: Tier) -> i32 {
 	report.violations.sort_by_key(|v| v.what.is_empty());
 	report.set("evaluations", json!(total_done));
 	report.set("distinct_nontrivial", json!(total_done));
-	report.set("rule", json!("6 workloads (4 x 10 commits of 500-byte values with both durabilities, rotate, flush-oldest, drain; 4 KiB memtable so a rotation also happens inside apply; option sets plain / vlog / versioned index / flush-on-close with reopen; 2 x overwrites, deletes and 2-3-key transactions on three keys with rotate, flush, drain, compaction, without and with a reopen in the middle; judged at value level) x every position n of every call class {write-like: EIO, ENOSPC, short write then ENOSPC; fsync: EIO; rename: EIO; create: ENOSPC} x {once, persistent}; each run is distinct; non-trivial = runs in which the armed position lies within the fault-free call count (all of them)"));
+	report.set("rule", json!("7 workloads (4 x 10 commits of 500-byte values with both durabilities, rotate, flush-oldest, drain; 4 KiB memtable so a rotation also happens inside apply; option sets plain / vlog / versioned index / flush-on-close with reopen; 2 x overwrites, deletes and 2-3-key transactions on three keys with rotate, flush, drain, compaction, without and with a reopen in the middle; 1 x six commits of 8 KiB values, larger than any write buffer; judged at value level) x every position n of every call class {write-like: EIO, ENOSPC, short write then ENOSPC; fsync: EIO; rename: EIO; create: ENOSPC} x {once, persistent}; each run is distinct; non-trivial = runs in which the armed position lies within the fault-free call count (all of them)"));
 	report.set("samples", json!(samples));
 	report.set("call_counts_fault_free", json!(all_counts));
 	report.set("fault_runs_planned", json!(total_planned));
